@@ -115,7 +115,7 @@ class Portfolio:
         with self.lock:
             self.solver_time[s] = self.solver_time.get(s, 0.0) + t
 
-    def solve_text(self, txt, txt_cvc5, tag, cap=None):
+    def solve_text(self, txt, txt_cvc5, tag, cap=None, quick_only=False):
         """returns (verdict, solver, seconds, answers); identical queries are solved once"""
         h = hashlib.sha1(txt.encode()).hexdigest()[:16]
         with self.lock:
@@ -128,14 +128,14 @@ class Portfolio:
             v, who, secs, answers = ent["res"]
             return v, who, 0.0, dict(answers, shared=True)
         try:
-            res = self._solve_text(txt, txt_cvc5, tag, h, cap or self.cap)
+            res = self._solve_text(txt, txt_cvc5, tag, h, cap or self.cap, quick_only)
         except Exception as ex:
             res = ("unknown", None, 0.0, {"exception": repr(ex)})
         ent["res"] = res
         ent["ev"].set()
         return res
 
-    def _solve_text(self, txt, txt_cvc5, tag, h, cap):
+    def _solve_text(self, txt, txt_cvc5, tag, h, cap, quick_only=False):
         path = os.path.join(self.workdir, "%s-%s-%d.smt2" % (tag, h, os.getpid()))
         with open(path, "w") as f:
             f.write(txt)
@@ -151,6 +151,9 @@ class Portfolio:
         if r in ("sat", "unsat"):
             self._cleanup(path, path5)
             return r, "z3new", time.time() - t0, answers
+        if quick_only:
+            self._cleanup(path, path5)
+            return "unknown", None, time.time() - t0, answers
         (verdict, who), ans2, t = _race(path, path5, cap, ["z3", "cvc5", "z3new"])
         for s in ans2:
             self._acct(s, t)
